@@ -37,6 +37,7 @@ type Engine struct {
 	unfoldFn  *ssa.Function
 	unfoldBudget int
 	recApps   map[string]recApp // rendered application -> (fn,args)
+	recAxioms map[string][]*Term // definitional equations of recursive applications (computed once)
 	noMerge   bool
 	unitFn    *ssa.Function
 	opaque    map[string]bool // spec functions kept abstract at call sites
@@ -135,6 +136,7 @@ type loopEffects struct {
 	buf      bool
 	all      bool // a call whose effect is not analysed: every family
 	dyn      bool // a call through a function value
+	maps     bool // a map update
 }
 
 func (e *Engine) loopWrites(fn *ssa.Function, h *ssa.BasicBlock) (names map[string]bool, heapWrite bool, bufWrite bool) {
@@ -209,7 +211,7 @@ func (e *Engine) blockEffects(b *ssa.BasicBlock, fx *loopEffects, seen map[*ssa.
 		case *ssa.Store:
 			e.storeEffect(i.Addr, fx, top)
 		case *ssa.MapUpdate:
-			// maps are havocked wholesale at loop heads
+			fx.maps = true // maps are havocked wholesale at loop heads
 		case *ssa.Call:
 			cc := &i.Call
 			if bi, ok := cc.Value.(*ssa.Builtin); ok {
@@ -242,6 +244,11 @@ func (e *Engine) blockEffects(b *ssa.BasicBlock, fx *loopEffects, seen map[*ssa.
 				continue // library models do not write program memory
 			}
 			if e.findContract(f, "requires") != nil || len(e.findContracts(f, "ensures")) > 0 {
+				for _, p := range f.Params {
+					if pt, ok := p.Type().Underlying().(*types.Pointer); ok && typeName(pt.Elem()) == "bytes.Buffer" {
+						fx.buf = true
+					}
+				}
 				continue // contracted callees write nothing pre-existing (modifies = none); their results are fresh values
 			}
 			if seen[f] || depth > 4 {
@@ -505,6 +512,12 @@ func (e *Engine) textOf(st *State, s SliceV) ([]Piece, bool) {
 	if t, ok := st.text[s.Base.String()]; ok && isZero(s.Off) {
 		return t, true
 	}
+	if !isZero(s.Off) {
+		// a window at a non-zero offset whose text a contract stated (see SameText): known for exactly that view
+		if t, ok := st.text[viewKey(s)]; ok {
+			return t, true
+		}
+	}
 	// package-level byte slices initialised from a literal hold their initial value: functions under contract
 	// never store to globals (a store to a non-ghost global is a tool error) and never write pre-existing bytes (frame)
 	if t, ok := gtext[s.Base.String()]; ok && isZero(s.Off) && len(t) == 1 && t[0].K == "lit" && s.Len.IsConst() && int(s.Len.Uint()) == len(t[0].S) {
@@ -516,6 +529,8 @@ func (e *Engine) textOf(st *State, s SliceV) ([]Piece, bool) {
 	}
 	return []Piece{{K: "raw", Base: s.Base, Off: s.Off, Len: s.Len, Arr: arr}}, false
 }
+
+func viewKey(s SliceV) string { return s.Base.String() + "|" + s.Off.String() + "|" + s.Len.String() }
 
 func asTerm(v Val) *Term {
 	if t, ok := v.(*Term); ok {
@@ -598,18 +613,7 @@ func (e *Engine) run(st *State, fr *Frame, b *ssa.BasicBlock, idx int) []Outcome
 			case *ssa.TypeAssert:
 				fr.regs[i] = e.typeAssert(st, fr, i)
 			case *ssa.MakeMap:
-				mt := i.Type().Underlying().(*types.Map)
-				kw := bvWidth(mt.Key())
-				if kw <= 0 {
-					fail("map with non-scalar key")
-				}
-				ks := sortOf(&Term{W: kw})
-				dom := &Term{Leaf: "((as const (Array " + ks + " Bool)) false)", W: -1, Sort: "(Array " + ks + " Bool)"}
-				mo := &MapObj{Dom: dom, Vals: map[string]*Term{}, KeyW: kw, ValT: mt.Elem(), Own: true}
-				if _, isPtr := mt.Elem().Underlying().(*types.Pointer); isPtr {
-					mo.Vals["p"] = SymSort(fresh("mapval"), "(Array "+ks+" Ref)")
-				}
-				fr.regs[i] = MapV{st.newObj(mo)}
+				fr.regs[i] = MapV{st.newObj(newMapObj(i.Type().Underlying().(*types.Map), false))}
 			case *ssa.Lookup:
 				fr.regs[i] = e.mapLookup(st, fr, i)
 			case *ssa.MapUpdate:
@@ -818,7 +822,18 @@ func setPath(v Val, path []int, nv Val) Val {
 func (e *Engine) load(st *State, p Val, t types.Type) Val {
 	switch x := p.(type) {
 	case PtrCell:
-		return getPath(st.cells[x.ID], x.Path)
+		v := getPath(st.cells[x.ID], x.Path)
+		if sl, ok := st.arrBack[fmt.Sprint(x.ID, x.Path)]; ok {
+			if av, ok := v.(ArrayV); ok {
+				// the array was sliced (and possibly written through the slice): its contents are on the byte heap
+				na := ArrayV{T: av.T}
+				for k := range av.E {
+					na.E = append(na.E, st.readByte(sl, BVu(uint64(k), 64)))
+				}
+				return na
+			}
+		}
+		return v
 	case PtrElem:
 		if w := bvWidth(x.S.Elem); w == 8 {
 			return st.readByte(x.S, x.Idx)
@@ -860,6 +875,11 @@ func (e *Engine) store(st *State, fr *Frame, p Val, v Val, ins ssa.Instruction) 
 			}
 			st.writeByte(x.S, x.Idx, asTerm(v))
 			delete(st.text, x.S.Base.String())
+			for k := range st.text {
+				if strings.HasPrefix(k, x.S.Base.String()+"|") {
+					delete(st.text, k)
+				}
+			}
 			return
 		}
 		if !st.spec {
@@ -1028,9 +1048,16 @@ func (e *Engine) binop(st *State, op token.Token, xv, yv Val, xt types.Type, ins
 			}
 			return Bool(a.Tag == nil)
 		}
+	case PtrObj:
+		if _, ok := yv.(NilV); ok {
+			return Bool(op == token.NEQ) // library objects handed in are non-nil
+		}
 	case NilV:
 		if _, ok := yv.(NilV); ok {
 			return Bool(op == token.EQL)
+		}
+		if _, ok := yv.(PtrObj); ok {
+			return Bool(op == token.NEQ)
 		}
 		switch b := yv.(type) {
 		case ChanV:
@@ -1287,6 +1314,11 @@ func (e *Engine) indexAddr(st *State, fr *Frame, i *ssa.IndexAddr) Val {
 		}
 		return PtrElem{S: s, Idx: idx}
 	case PtrCell:
+		if back, ok := st.arrBack[fmt.Sprint(s.ID, s.Path)]; ok {
+			g := ULt(idx, back.Len)
+			e.oblige(st, "safe:index", g, fmt.Sprintf("index in %s", fr.fn.Name()))
+			return PtrElem{S: back, Idx: idx}
+		}
 		// pointer to array cell: &arr[i] with concrete i
 		if idx.IsConst() {
 			return PtrCell{ID: s.ID, Path: append(append([]int{}, s.Path...), int(idx.Uint()))}
@@ -1379,11 +1411,20 @@ func (e *Engine) slice(st *State, fr *Frame, i *ssa.Slice) Val {
 			}
 			return ListV{E: av.E, Elem: et}
 		}
+		bkey := fmt.Sprint(v.ID, v.Path)
+		if back, ok := st.arrBack[bkey]; ok {
+			s = back
+			break
+		}
 		base := st.allocRef()
 		arr := zeroArr
 		n := len(av.E)
 		st.setArr(base, arr)
 		s = SliceV{Base: base, Off: BVu(0, 64), Len: BVu(uint64(n), 64), Cap: BVu(uint64(n), 64), Elem: types.Typ[types.Uint8]}
+		if st.arrBack == nil {
+			st.arrBack = map[string]SliceV{}
+		}
+		st.arrBack[bkey] = s
 		allConst := true
 		lit := make([]byte, 0, len(av.E))
 		for k, el := range av.E {
@@ -1657,7 +1698,10 @@ func (e *Engine) absApp(st *State, fn *ssa.Function, args []Val) Val {
 		for k, v := range st.heap {
 			snap[k] = v
 		}
-		e.recApps[t.String()] = recApp{fn, args, t, snap}
+		if !e.opaque[fn.Name()] {
+			// (opaque functions stay uninterpreted: no definitional axiom)
+			e.recApps[t.String()] = recApp{fn, args, t, snap}
+		}
 		return t
 	}
 	if strings.HasSuffix(typeName(res), "vspec.Text") {
@@ -1804,36 +1848,77 @@ func (e *Engine) unfoldOnce(st *State, fn *ssa.Function, args []Val) []Outcome {
 	return outs
 }
 
-// defAxioms returns definitional equations for the recursive scalar applications occurring in the terms.
+// defAxioms returns definitional equations for the recursive scalar applications occurring in the terms (and, one
+// level further, in those equations). The equation of an application depends only on the application (its
+// arguments and the heap it was created in), so it is computed once.
 func (e *Engine) defAxioms(st *State, terms []*Term) []*Term {
-	hay := fullText(terms)
 	var ax []*Term
 	seen := map[string]bool{}
-	for round := 0; round < 2; round++ {
-		var keys []string
-		for k := range e.recApps {
-			keys = append(keys, k)
+	visited := map[*Term]bool{}
+	var found []string
+	var walk func(t *Term)
+	walk = func(t *Term) {
+		if t == nil || t.C != nil || visited[t] {
+			return
 		}
-		for _, k := range keys {
-			if seen[k] || !strings.Contains(hay, k) {
-				continue
+		visited[t] = true
+		if t.Op == "" {
+			if t.Def != nil {
+				// an abbreviated application is registered under its abbreviation
+				if _, ok := e.recApps[t.Leaf]; ok && !seen[t.Leaf] {
+					seen[t.Leaf] = true
+					found = append(found, t.Leaf)
+				}
+				walk(t.Def)
 			}
-			seen[k] = true
-			ra := e.recApps[k]
-			base := st.clone()
-			base.pc = nil
-			base.heap = make(map[string]*Term, len(ra.heap))
-			for hk, hv := range ra.heap {
-				base.heap[hk] = hv
+			if t.QDef != nil {
+				walk(t.QDef)
 			}
-			e.noPrune++ // definitional unfolding is independent of the path condition: no feasibility queries
-			outs := e.unfoldOnce(base, ra.fn, ra.args)
-			e.noPrune--
-			for _, o := range outs {
-				v := asTerm(o.ret[0])
-				a := Implies(And(o.st.pc...), Eq(ra.t, v))
-				ax = append(ax, a)
-				hay += a.String()
+			return
+		}
+		if strings.HasPrefix(t.Op, "rec_") {
+			if k := t.String(); !seen[k] {
+				if _, ok := e.recApps[k]; ok {
+					seen[k] = true
+					found = append(found, k)
+				}
+			}
+		}
+		for _, a := range t.Args {
+			walk(a)
+		}
+	}
+	for _, t := range terms {
+		walk(t)
+	}
+	for round := 0; round < 2; round++ {
+		todo := found
+		found = nil
+		sort.Strings(todo)
+		for _, k := range todo {
+			axs, ok := e.recAxioms[k]
+			if !ok {
+				ra := e.recApps[k]
+				base := st.clone()
+				base.pc = nil
+				base.heap = make(map[string]*Term, len(ra.heap))
+				for hk, hv := range ra.heap {
+					base.heap[hk] = hv
+				}
+				e.noPrune++ // definitional unfolding is independent of the path condition: no feasibility queries
+				outs := e.unfoldOnce(base, ra.fn, ra.args)
+				e.noPrune--
+				for _, o := range outs {
+					v := asTerm(o.ret[0])
+					axs = append(axs, Implies(And(o.st.pc...), Eq(ra.t, v)))
+				}
+				e.recAxioms[k] = axs
+			}
+			ax = append(ax, axs...)
+			if round == 0 {
+				for _, a := range axs {
+					walk(a)
+				}
 			}
 		}
 	}
@@ -1918,7 +2003,7 @@ func (e *Engine) mapLookup(st *State, fr *Frame, i *ssa.Lookup) Val {
 		fail("lookup on %T", x)
 	}
 	m := st.objs[mv.ID].(*MapObj)
-	k := asTerm(e.get(st, fr, i.Index))
+	k := mapKeyTerm(e.get(st, fr, i.Index))
 	if st.trace != nil {
 		st.trace.reads = append(st.trace.reads, traceRead{fmt.Sprintf("map|%d", mv.ID), k})
 	}
@@ -1940,6 +2025,23 @@ func (e *Engine) mapLookup(st *State, fr *Frame, i *ssa.Lookup) Val {
 			st.assumeT(Implies(present, ULt(alloc0, ref)))
 		}
 		v = PtrHeap{Ref: Ite(present, ref, BVu(0, 64)), Root: u.Elem()}
+	case *types.Slice:
+		// slice-valued map: one array per component of the slice header; a missing key yields the nil slice
+		zero := BVu(0, 64)
+		comp := func(c string) *Term {
+			arr, ok := m.Vals[c]
+			if !ok {
+				fail("slice-valued map without component arrays")
+			}
+			return Ite(present, Select(arr, k, 64), zero)
+		}
+		sl := SliceV{Base: comp("base"), Off: comp("off"), Len: comp("len"), Cap: comp("cap"), Elem: u.Elem()}
+		if !st.spec {
+			lim := BVu(1<<40, 64)
+			st.assumeT(And(SLe(zero, sl.Off), SLt(sl.Off, lim), SLe(zero, sl.Len), SLe(sl.Len, sl.Cap), SLt(sl.Cap, lim),
+				Implies(Eq(sl.Base, zero), Eq(sl.Cap, zero))))
+		}
+		v = sl
 	default:
 		fail("map value type %s", typeName(m.ValT))
 	}
@@ -1955,8 +2057,21 @@ func (e *Engine) mapUpdate(st *State, fr *Frame, i *ssa.MapUpdate) {
 		fail("mapupdate on non-map")
 	}
 	m := st.objs[mv.ID].(*MapObj)
-	k := asTerm(e.get(st, fr, i.Key))
+	k := mapKeyTerm(e.get(st, fr, i.Key))
 	val := e.get(st, fr, i.Value)
+	if sl, isSl := val.(SliceV); isSl {
+		ks := sortOf(&Term{W: m.KeyW})
+		nd := Store(m.Dom, k, tTrue)
+		nd.Sort = "(Array " + ks + " Bool)"
+		nv := map[string]*Term{}
+		for c, t := range map[string]*Term{"base": sl.Base, "off": sl.Off, "len": sl.Len, "cap": sl.Cap} {
+			na := Store(m.Vals[c], k, t)
+			na.Sort = "(Array " + ks + " I64)"
+			nv[c] = na
+		}
+		st.objs[mv.ID] = &MapObj{Dom: nd, Vals: nv, KeyW: m.KeyW, ValT: m.ValT, Own: m.Own, T: m.T}
+		return
+	}
 	p, ok := val.(PtrHeap)
 	if !ok {
 		fail("map value %T", val)
@@ -1971,7 +2086,7 @@ func (e *Engine) mapUpdate(st *State, fr *Frame, i *ssa.MapUpdate) {
 	na := Store(arr, k, p.Ref)
 	na.Sort = "(Array " + ks + " Ref)"
 	own := m.Own && e.valid(st, ULt(alloc0, p.Ref))
-	st.objs[mv.ID] = &MapObj{Dom: nd, Vals: map[string]*Term{"p": na}, KeyW: m.KeyW, ValT: m.ValT, Own: own}
+	st.objs[mv.ID] = &MapObj{Dom: nd, Vals: map[string]*Term{"p": na}, KeyW: m.KeyW, ValT: m.ValT, Own: own, T: m.T}
 }
 
 
@@ -2056,4 +2171,59 @@ func (e *Engine) runDefers(st *State, fr *Frame, b *ssa.BasicBlock, next int) []
 
 func isSpecName(n string) bool {
 	return strings.HasPrefix(n, "spec") || strings.HasPrefix(n, "Spec")
+}
+
+
+// mapKeyTerm: scalar keys are themselves; byte-array keys ([16]byte server ids) are the concatenation of their bytes.
+func mapKeyTerm(v Val) *Term {
+	switch x := v.(type) {
+	case *Term:
+		return x
+	case ArrayV:
+		var t *Term
+		for _, el := range x.E {
+			b := asTerm(el)
+			if t == nil {
+				t = b
+			} else {
+				t = rawConcat(t, b)
+			}
+		}
+		return t
+	}
+	fail("map key %T", v)
+	return nil
+}
+
+func mapKeyWidth(t types.Type) int {
+	if w := bvWidth(t); w > 0 {
+		return w
+	}
+	if a, ok := t.Underlying().(*types.Array); ok && bvWidth(a.Elem()) == 8 {
+		return int(a.Len()) * 8
+	}
+	return -1
+}
+
+// newMapObj builds the ghost arrays of a map of the given type (fresh = unconstrained contents).
+func newMapObj(mt *types.Map, freshContents bool) *MapObj {
+	kw := mapKeyWidth(mt.Key())
+	if kw <= 0 {
+		fail("map with unsupported key type %s", typeName(mt.Key()))
+	}
+	ks := sortOf(&Term{W: kw})
+	dom := &Term{Leaf: "((as const (Array " + ks + " Bool)) false)", W: -1, Sort: "(Array " + ks + " Bool)"}
+	if freshContents {
+		dom = SymSort(fresh("mapdom"), "(Array "+ks+" Bool)")
+	}
+	mo := &MapObj{Dom: dom, Vals: map[string]*Term{}, KeyW: kw, ValT: mt.Elem(), Own: !freshContents, T: mt}
+	switch mt.Elem().Underlying().(type) {
+	case *types.Pointer:
+		mo.Vals["p"] = SymSort(fresh("mapval"), "(Array "+ks+" Ref)")
+	case *types.Slice:
+		for _, c := range []string{"base", "off", "len", "cap"} {
+			mo.Vals[c] = SymSort(fresh("mapval_"+c), "(Array "+ks+" I64)")
+		}
+	}
+	return mo
 }
